@@ -209,5 +209,5 @@ def ioconv : Handler := fun args impl =>
     { model := "|".intercalate (rs.map (·.1)), specs := (rs.map (·.2)).flatten }
   | _ => bad "arity"
 
-def handlers : List (String × Handler) := [("rfault", rfault), ("rfaultt", rfaultt), ("sfault", sfault), ("wfault", wfault), ("ioconv", ioconv)]
+def handlers : List (String × Handler) := [("rfault", rfault), ("rfaultt", rfaultt), ("rfault1", rfault), ("rfaultt1", rfaultt), ("sfault", sfault), ("wfault", wfault), ("ioconv", ioconv)]
 end SJ.Drv.C13
